@@ -2,6 +2,7 @@ import Hcl.Theorems.C01
 import Hcl.Theorems.C10
 import Hcl.Proofs.ProgramVerdict
 import Hcl.Proofs.RunEq
+import Hcl.Proofs.DiagsVerdict
 
 /-!
 # C12 — results are deterministic: same inputs, same output, on every run
@@ -53,6 +54,16 @@ theorem C12_rejected_on_every_run (fl : Flags) (cls : CharClass) (o₁ o₂ : Or
   | ok p₂ =>
     obtain ⟨p₁, hp₁⟩ := Program_new_verdict fl cls o₂ o₁ stmts p₂ ho₂ ho₁ hwf h₂
     rw [h] at hp₁; cases hp₁
+
+/-- **C12, the diagnostics**: a rejected program gets, under any two iteration orders, lists of diagnostics that hold
+    the same entries (kind and names, with multiplicity) in some order -- or both report one dependency loop, where
+    which loop is shown may differ. -/
+theorem C12_diagnostics_order_independent (fl : Flags) (cls : CharClass) (o₁ o₂ : Orders) (stmts : List Stmt)
+    (ds₁ ds₂ : List Diag) (ho₁ : OrdersOK o₁) (ho₂ : OrdersOK o₂) (hwf : StmtsWF stmts)
+    (h₁ : Program.new fl cls o₁ y86FixedFunctions stmts = .error ds₁)
+    (h₂ : Program.new fl cls o₂ y86FixedFunctions stmts = .error ds₂) :
+    (∃ c₁ c₂, ds₁ = [⟨.WireLoop, c₁⟩] ∧ ds₂ = [⟨.WireLoop, c₂⟩]) ∨ ds₁.Perm ds₂ :=
+  Program_new_errors_order_independent fl cls o₁ o₂ stmts ds₁ ds₂ ho₁ ho₂ hwf h₁ h₂
 
 /-- **C12, the constants**: the values of the named constants do not depend on the order in which the sorter
     hands them to `resolve_constants`. -/
